@@ -58,3 +58,23 @@ PROPS["C04"] = dict(
     technique="Lean 4 proof of the discrete rules + exact correspondence of the executable model against the implementation",
     assumptions=["TransverseMercator::UTM()/PolarStereographic::UPS() are treated as kernels here (covered by C06/C11)"],
 )
+
+PROPS["C05"] = dict(
+    harnesses=[dict(name="C05", procs_quick=2, procs_thorough=16)],
+    rule=("(zone, hemisphere, x, y, prec): tile edges, square edges at every precision ±0..2 ulp, closed upper edges, the equator from both "
+          "hemispheres, out-of-range and NaN/inf; explicit latitudes consistent / 8° off / tiny / mirrored; decoder inputs: encoder outputs (both "
+          "cases), single-character mutations (I, O, NUL, space, high-bit), insert/delete, truncations to grid-zone-only, wrong band letters, extra "
+          "leading digits, random alphanumerics; all 3200 UTMRow inputs, all 1200 grid-zone-only strings, all 3200 band/column/row combinations of "
+          "one zone (six in thorough). non-trivial = no exception; distinct = distinct (op, leading bits of arguments)"),
+    tolerances={"strings, zone, hemisphere, precision, accept/reject": "exact", "Reverse x, y": "bit-equal to the F64 model (one division)",
+                "containment": "4 nm (the exact statement is decided in Lean's dyadic arithmetic)", "band letter": "neighbour allowed within 20 nm of a band edge (4 × 5 nm)"},
+    level_text=("Theorems (all inputs of the integer level): letter tables well-formed and inverted by lookup, the float expression for the UTMRow safe "
+                "bounds evaluates (in the binary64 model, inside the kernel) to the table in the source comment, UTMRow returns the unique allowed "
+                "row congruent to the row letter (or 100), digit truncation/prefix laws, Reverse∘Forward on the integer level. The executable model "
+                "of Forward (both overloads), Reverse, CheckCoords and UTMRow is compared exactly with the implementation on every sampled input; "
+                "round trip, re-encode, prefix law, band letter vs latitude, block/band geography and outputs-untouched are oracles on the implementation."),
+    level_note=("MGRS letter tables and constants regenerated from MGRS.cpp/MGRS.hpp each run; hand-written model of the control flow; the latitude used "
+                "by the lat-less overload when its cheap bounds straddle a band edge is a kernel value supplied by UTMUPS::Reverse"),
+    technique="Lean 4 proof (decide +kernel over the finite tables, induction for digit laws) + exact model/implementation correspondence",
+    assumptions=["UTMUPS::Reverse is a kernel here (C04/C06)"],
+)
